@@ -323,20 +323,69 @@ func c06rules(c *Ctx, w *World, pfx string) {
 
 	c.Rule(pfx+".R2b", "SplitByTags: each closure stores the element exactly once, keys unchanged, into field X of maps[tagsMatch(tagNames, tagsKey)]", 20, func(r *Rule) {
 		splitRule(r, "SplitByTags", func(cl *ssa.Function, mmSplit ssa.Value) (bool, string) {
-			lk, ok := mmSplit.(*ssa.Lookup)
-			if !ok {
-				return false, "split map is not maps[key]: " + pathOf(mmSplit)
+			outer := cl
+			for outer.Parent() != nil {
+				outer = outer.Parent()
 			}
-			call, ok := lk.Index.(*ssa.Call)
-			if !ok || !isCall(call, "gostatsd.tagsMatch") {
-				return false, "key is not tagsMatch(...): " + pathOf(lk.Index)
+			// the result map: what SplitByTags returns
+			resName := ""
+			eachInstr(outer, func(in ssa.Instruction) {
+				if rt, ok := in.(*ssa.Return); ok && len(rt.Results) == 1 {
+					if _, isMap := rt.Results[0].Type().Underlying().(*types.Map); isMap {
+						if _, isMk := rt.Results[0].(*ssa.MakeMap); !isMk {
+							resName = pathOf(rt.Results[0])
+						}
+					}
+				}
+			})
+			if resName == "" || len(outer.Params) < 2 {
+				return false, "the map returned by SplitByTags is not identified"
 			}
-			a := call.Call.Args
-			if len(a) != 2 || valueName(a[0]) != "tagNames" || paramIndex(cl, a[1]) != 1 {
-				return false, "tagsMatch is not applied to (tagNames, tagsKey)"
+			keyOK := func(k ssa.Value) (bool, string) {
+				call, ok := k.(*ssa.Call)
+				if !ok || !isCall(call, "gostatsd.tagsMatch") {
+					return false, "key is not tagsMatch(...): " + pathOf(k)
+				}
+				a := call.Call.Args
+				if len(a) != 2 || valueName(a[0]) != outer.Params[1].Name() || paramIndex(cl, a[1]) != 1 {
+					return false, "tagsMatch is not applied to (tagNames, tagsKey)"
+				}
+				return true, ""
 			}
-			if valueName(lk.X) != "maps" {
-				return false, "lookup is not in the result map"
+			n := 0
+			for _, vc := range valueCases(mmSplit, nil) {
+				n++
+				leaf := vc.V
+				if ex, ok := leaf.(*ssa.Extract); ok && ex.Index == 0 {
+					leaf = ex.Tuple
+				}
+				switch x := leaf.(type) {
+				case *ssa.Lookup:
+					if ok, why := keyOK(x.Index); !ok {
+						return false, why
+					}
+					if pathOf(x.X) != resName {
+						return false, "lookup is not in the result map"
+					}
+				case *ssa.Call:
+					// a fresh split: it must be filed in the result map under the same key
+					filed := false
+					for _, ref := range referrers(x) {
+						if mu, ok := ref.(*ssa.MapUpdate); ok && mu.Value == ssa.Value(x) && pathOf(mu.Map) == resName {
+							if ok, _ := keyOK(mu.Key); ok {
+								filed = true
+							}
+						}
+					}
+					if !filed {
+						return false, "a new split map is used without being stored in the result under tagsMatch(tagNames, tagsKey): " + pathOf(x)
+					}
+				default:
+					return false, "split map is not maps[key]: " + pathOf(leaf)
+				}
+			}
+			if n == 0 {
+				return false, "split map has no origin"
 			}
 			return true, "maps[tagsMatch(tagNames, tagsKey)]"
 		})
